@@ -1,3 +1,501 @@
+(** C02 — proofs about model/C02_Model.v (get_rc, knn, extract_k). *)
 From Coq Require Import List NArith ZArith Bool Lia.
-From SK Require Import lib.LGraph model.C01_Model model.C02_Model.
-Lemma stub_c02 : forall a, rc_attr (rc_attr a) = rc_attr a. Proof. reflexivity. Qed.
+From SK Require Import lib.LGraph lib.Reach lib.C01_GraphLemmas model.C01_Model model.C02_Model.
+Import ListNotations.
+Local Open Scope Z_scope.
+
+(** * ensure_node *)
+Definition keys (ns : list (N * inode)) : list N := map fst ns.
+
+Lemma has_key_spec n ns : has_key n ns = true <-> In n (keys ns).
+Proof.
+  unfold has_key, keys. destruct (assoc n ns) eqn:E.
+  - split; [intros _; eapply assoc_some_key; eauto|reflexivity].
+  - split; [discriminate|]. intros I. apply assoc_none in E. contradiction.
+Qed.
+
+Lemma keys_ensure g n ns k :
+  In k (keys (ensure_node g n ns)) <-> In k (keys ns) \/ (k = n /\ In n (node_ids g)).
+Proof.
+  unfold ensure_node. destruct (has_key n ns) eqn:Hk.
+  - apply has_key_spec in Hk. split; [auto|]. intros [I|[-> _]]; assumption.
+  - destruct (label g n) as [a|] eqn:L.
+    + unfold keys. rewrite map_app, in_app_iff. simpl. apply label_some_node in L. intuition (subst; auto).
+    + split; [auto|]. intros [I|[-> I]]; [exact I|]. apply node_label_some in I. destruct I. congruence.
+Qed.
+
+(** invariant of the node component: distinct ids, each with the selected labels of the ITS node *)
+Definition NInv (g : its) (ns : list (N * inode)) : Prop :=
+  NoDup (keys ns) /\ forall k b, In (k, b) ns -> exists a, label g k = Some a /\ b = rc_attr a.
+
+Lemma NInv_nil g : NInv g [].
+Proof. split; [constructor|intros ? ? []]. Qed.
+
+Lemma NInv_ensure g n ns : NInv g ns -> NInv g (ensure_node g n ns).
+Proof.
+  intros [Hn Hv]. unfold ensure_node. destruct (has_key n ns) eqn:Hk; [split; assumption|].
+  destruct (label g n) as [a|] eqn:L; [|split; assumption]. split.
+  - unfold keys. rewrite map_app. simpl.
+    assert (forall l : list N, NoDup l -> ~ In n l -> NoDup (l ++ [n])) as G.
+    { induction l as [|y l IH]; simpl; intros Hl Hni; [constructor; [intros []|constructor]|].
+      inversion Hl; subst. constructor; [rewrite in_app_iff; simpl; intuition|apply IH; intuition]. }
+    apply G; [exact Hn|]. intros I. apply has_key_spec in I. congruence.
+  - intros k b I. apply in_app_iff in I. destruct I as [I|[E|[]]]; [apply Hv; exact I|].
+    inversion E; subst. eauto.
+Qed.
+
+(** * the node component of both loops *)
+Definition ends_step (g : its) (sel : N * N * iedge -> bool) (ns : list (N * inode)) (e : N * N * iedge) :=
+  if sel e then ensure_node g (snd (fst e)) (ensure_node g (fst (fst e)) ns) else ns.
+
+Definition sel_changed (e : N * N * iedge) : bool := changed (snd e).
+Definition sel_hh (g : its) (e : N * N * iedge) : bool := is_hh g (fst (fst e)) (snd (fst e)).
+
+Lemma fold_changed_fst g L : forall st,
+  fst (fold_left (step_changed g) L st) = fold_left (ends_step g sel_changed) L (fst st).
+Proof.
+  induction L as [|[[u v] x] L IH]; intros st; simpl; [reflexivity|]. rewrite IH. f_equal.
+  unfold ends_step, sel_changed. simpl. destruct (changed x); reflexivity.
+Qed.
+
+Lemma fold_hh_fst g L : forall st,
+  fst (fold_left (step_hh g) L st) = fold_left (ends_step g (sel_hh g)) L (fst st).
+Proof.
+  induction L as [|[[u v] x] L IH]; intros st; simpl; [reflexivity|]. rewrite IH. f_equal.
+  unfold ends_step, sel_hh. simpl. destruct (is_hh g u v); reflexivity.
+Qed.
+
+Lemma ends_fold_NInv g sel L : forall ns, NInv g ns -> NInv g (fold_left (ends_step g sel) L ns).
+Proof.
+  induction L as [|e L IH]; intros ns Hi; simpl; [exact Hi|]. apply IH. unfold ends_step.
+  destruct (sel e); [|exact Hi]. apply NInv_ensure, NInv_ensure, Hi.
+Qed.
+
+Lemma ends_fold_keys g sel L : forall ns k,
+  In k (keys (fold_left (ends_step g sel) L ns)) <->
+  In k (keys ns) \/ exists a b x, In (a, b, x) L /\ sel (a, b, x) = true /\ (k = a \/ k = b) /\ In k (node_ids g).
+Proof.
+  induction L as [|[[u v] y] L IH]; intros ns k; simpl.
+  - split; [auto|]. intros [I|(a & b & x & [] & _)]. exact I.
+  - rewrite IH. unfold ends_step at 1. simpl. destruct (sel (u, v, y)) eqn:Se.
+    + rewrite !keys_ensure. split.
+      * intros [[[I|[-> In]]|[-> In]]|(a & b & x & I & S' & Hk & In)]; auto.
+        -- right. exists u, v, y. auto 6.
+        -- right. exists u, v, y. auto 6.
+        -- right. exists a, b, x. auto 6.
+      * intros [I|(a & b & x & [E|I] & S' & Hk & In)]; auto.
+        -- inversion E; subst. destruct Hk as [->| ->]; auto.
+        -- right. exists a, b, x. auto.
+    + split.
+      * intros [I|(a & b & x & I & S' & Hk & In)]; auto. right. exists a, b, x. auto 6.
+      * intros [I|(a & b & x & [E|I] & S' & Hk & In)]; auto.
+        -- inversion E; subst. congruence.
+        -- right. exists a, b, x. auto.
+Qed.
+
+(** * the edge component *)
+Lemma fold_changed_snd g L : forall st,
+  snd (fold_left (step_changed g) L st) = snd st ++ filter sel_changed L.
+Proof.
+  induction L as [|[[u v] x] L IH]; intros st; simpl; [rewrite app_nil_r; reflexivity|].
+  rewrite IH. unfold sel_changed at 2. simpl. destruct (changed x); simpl; [rewrite <- app_assoc|]; reflexivity.
+Qed.
+
+Lemma step_hh_snd_mono g st e t : In t (snd st) -> In t (snd (step_hh g st e)).
+Proof.
+  destruct e as [[u v] x]. simpl. destruct (is_hh g u v); [|auto]. simpl.
+  destruct (find_edge u v (snd st)); [auto|]. intros I. apply in_or_app. auto.
+Qed.
+
+Lemma fold_hh_snd_mono g L : forall st t, In t (snd st) -> In t (snd (fold_left (step_hh g) L st)).
+Proof.
+  induction L as [|e L IH]; intros st t I; simpl; [exact I|]. apply IH, step_hh_snd_mono, I.
+Qed.
+
+Lemma fold_hh_snd_sound g L : forall st a b x, In (a, b, x) (snd (fold_left (step_hh g) L st)) ->
+  In (a, b, x) (snd st) \/ (In (a, b, x) L /\ is_hh g a b = true).
+Proof.
+  induction L as [|[[u v] y] L IH]; intros st a b x I; simpl in *; [auto|].
+  apply IH in I. destruct I as [I|[I Hh]]; [|auto].
+  destruct (is_hh g u v) eqn:Hh; [|auto]. simpl in I.
+  destruct (find_edge u v (snd st)); [auto|]. apply in_app_iff in I. destruct I as [I|[E|[]]]; [auto|].
+  inversion E; subst. auto.
+Qed.
+
+Lemma fold_hh_snd_complete g L : forall st a b x, In (a, b, x) L -> is_hh g a b = true ->
+  find_edge a b (snd (fold_left (step_hh g) L st)) <> None.
+Proof.
+  induction L as [|[[u v] y] L IH]; intros st a b x I Hh; simpl in *; [destruct I|].
+  destruct I as [E|I]; [|eapply IH; eauto]. inversion E; subst. rewrite Hh.
+  assert (exists z, In (a, b, z) (snd (ensure_node g b (ensure_node g a (fst st)),
+              match find_edge a b (snd st) with Some _ => snd st | None => snd st ++ [(a, b, x)] end)) \/
+                    In (b, a, z) (snd (ensure_node g b (ensure_node g a (fst st)),
+              match find_edge a b (snd st) with Some _ => snd st | None => snd st ++ [(a, b, x)] end))) as (z & Hz).
+  { simpl. destruct (find_edge a b (snd st)) as [z|] eqn:F.
+    - exists z. apply find_edge_some_in. exact F.
+    - exists x. left. apply in_or_app. right. left. reflexivity. }
+  apply (find_edge_not_none _ _ _ z).
+  destruct Hz as [Hz|Hz]; [left|right]; apply fold_hh_snd_mono; exact Hz.
+Qed.
+
+Lemma step_hh_simple g st e : simple (snd st) -> simple (snd (step_hh g st e)).
+Proof.
+  destruct e as [[u v] x]. simpl. destruct (is_hh g u v); [|auto]. simpl.
+  destruct (find_edge u v (snd st)) eqn:F; [auto|]. intros Hs. apply simple_snoc; assumption.
+Qed.
+
+Lemma fold_hh_simple g L : forall st, simple (snd st) -> simple (snd (fold_left (step_hh g) L st)).
+Proof.
+  induction L as [|e L IH]; intros st Hs; simpl; [exact Hs|]. apply IH, step_hh_simple, Hs.
+Qed.
+
+(** * get_rc: edges *)
+Definition st1 (g : its) : rc_state := fold_left (step_changed g) (gedges g) ([], []).
+
+Lemma gedges_rc g : gedges (get_rc g) = snd (fold_left (step_hh g) (gedges g) (st1 g)).
+Proof. reflexivity. Qed.
+Lemma gnodes_rc g : gnodes (get_rc g) = fst (fold_left (step_hh g) (gedges g) (st1 g)).
+Proof. reflexivity. Qed.
+
+Lemma st1_snd g : snd (st1 g) = filter sel_changed (gedges g).
+Proof. unfold st1. rewrite fold_changed_snd. reflexivity. Qed.
+
+Lemma is_hh_sym g u v : is_hh g u v = is_hh g v u.
+Proof. unfold is_hh. apply andb_comm. Qed.
+
+Lemma rc_edge_sound g a b x : In (a, b, x) (gedges (get_rc g)) ->
+  In (a, b, x) (gedges g) /\ (changed x = true \/ is_hh g a b = true).
+Proof.
+  rewrite gedges_rc. intros I. apply fold_hh_snd_sound in I. destruct I as [I|[I Hh]]; [|auto].
+  rewrite st1_snd in I. apply filter_In in I. destruct I as [I C]. auto.
+Qed.
+
+Lemma rc_edge_complete g a b x : consistent (gedges g) -> In (a, b, x) (gedges g) ->
+  changed x = true \/ is_hh g a b = true -> In (a, b, x) (gedges (get_rc g)) \/ In (b, a, x) (gedges (get_rc g)).
+Proof.
+  intros Hc I [C|Hh].
+  - left. rewrite gedges_rc. apply fold_hh_snd_mono. rewrite st1_snd. apply filter_In. auto.
+  - pose proof (fold_hh_snd_complete g (gedges g) (st1 g) a b x I Hh) as F. rewrite <- gedges_rc in F.
+    destruct (find_edge a b (gedges (get_rc g))) as [y|] eqn:Fy; [|congruence].
+    apply find_edge_some_in in Fy.
+    assert (y = x) as ->; [|exact Fy].
+    destruct Fy as [Fy|Fy]; apply rc_edge_sound in Fy; destruct Fy as [Fy _]; eapply Hc; eauto.
+Qed.
+
+Lemma rc_simple g : simple (gedges g) -> simple (gedges (get_rc g)).
+Proof.
+  intros Hs. rewrite gedges_rc. apply fold_hh_simple. rewrite st1_snd. apply simple_filter. exact Hs.
+Qed.
+
+(** the edge map of the centre *)
+Lemma rc_adj g : wf g -> forall u v e,
+  adj (get_rc g) u v = Some e <-> adj g u v = Some e /\ (changed e = true \/ is_hh g u v = true).
+Proof.
+  intros W u v e. pose proof (wf_consistent W) as Hc.
+  unfold adj at 1. rewrite (find_edge_iff (simple_consistent (rc_simple g (wf_simple W)))), (wf_adj_iff W). split.
+  - intros [I|I]; apply rc_edge_sound in I; destruct I as [I Hs]; [tauto|]. rewrite is_hh_sym. tauto.
+  - intros [[I|I] Hs].
+    + apply (rc_edge_complete g u v e Hc I Hs).
+    + rewrite is_hh_sym in Hs. destruct (rc_edge_complete g v u e Hc I Hs); tauto.
+Qed.
+
+Lemma changed_spec g u v e : std_consistent g -> In (u, v, e) (gedges g) \/ In (v, u, e) (gedges g) ->
+  (changed e = true <-> e_G e <> e_H e).
+Proof.
+  intros Sc I. assert (e_std e = e_G e - e_H e) as E by (destruct I as [I|I]; eapply Sc; eauto).
+  unfold changed. rewrite negb_true_iff, Z.eqb_neq, E. lia.
+Qed.
+
+Theorem rc_edges g : wf g -> std_consistent g -> forall u v e,
+  adj (get_rc g) u v = Some e <->
+  adj g u v = Some e /\ (e_G e <> e_H e \/ (is_h g u = true /\ is_h g v = true)).
+Proof.
+  intros W Sc u v e. rewrite (rc_adj g W). unfold is_hh. rewrite andb_true_iff. split.
+  - intros [A Hs]. split; [exact A|]. apply (wf_adj_iff W) in A. rewrite <- (changed_spec g u v e Sc A). exact Hs.
+  - intros [A Hs]. split; [exact A|]. pose proof (proj1 (wf_adj_iff W u v e) A) as A'.
+    rewrite (changed_spec g u v e Sc A'). exact Hs.
+Qed.
+
+(** * get_rc: nodes *)
+Lemma rc_NInv g : NInv g (gnodes (get_rc g)).
+Proof.
+  rewrite gnodes_rc, fold_hh_fst. apply ends_fold_NInv. unfold st1. rewrite fold_changed_fst.
+  apply ends_fold_NInv. apply NInv_nil.
+Qed.
+
+Lemma rc_keys g k : In k (node_ids (get_rc g)) <->
+  exists a b x, In (a, b, x) (gedges g) /\ (changed x = true \/ is_hh g a b = true) /\ (k = a \/ k = b) /\ In k (node_ids g).
+Proof.
+  unfold node_ids. rewrite gnodes_rc, fold_hh_fst. fold (keys (fold_left (ends_step g (sel_hh g)) (gedges g) (fst (st1 g)))).
+  rewrite ends_fold_keys. unfold st1. rewrite fold_changed_fst, ends_fold_keys. simpl. split.
+  - intros [[[]|(a & b & x & I & S' & R)]|(a & b & x & I & S' & R)]; exists a, b, x; auto.
+  - intros (a & b & x & I & [C|Hh] & R); [left; right|right]; exists a, b, x; auto.
+Qed.
+
+Lemma rc_label_sound g n b : label (get_rc g) n = Some b -> exists a, label g n = Some a /\ b = rc_attr a.
+Proof. intros L. apply assoc_in in L. apply (proj2 (rc_NInv g)). exact L. Qed.
+
+Lemma rc_label_keys g n a : In n (node_ids (get_rc g)) -> label g n = Some a -> label (get_rc g) n = Some (rc_attr a).
+Proof.
+  intros I L. apply node_label_some in I. destruct I as (b & Lb). rewrite Lb.
+  apply rc_label_sound in Lb. destruct Lb as (a' & L' & ->). congruence.
+Qed.
+
+Theorem rc_nodes g : wf g -> forall n b,
+  label (get_rc g) n = Some b <->
+  (exists a, label g n = Some a /\ b = rc_attr a) /\ (exists v e, adj (get_rc g) n v = Some e).
+Proof.
+  intros W n b. pose proof (wf_consistent W) as Hc.
+  pose proof (simple_consistent (rc_simple g (wf_simple W))) as Hr. split.
+  - intros L. split; [apply rc_label_sound; exact L|].
+    apply label_some_node, rc_keys in L. destruct L as (a & b' & x & I & Hs & Hk & _).
+    destruct (rc_edge_complete g a b' x Hc I Hs) as [R|R]; destruct Hk as [-> | ->].
+    + exists b', x. apply (find_edge_iff Hr). auto.
+    + exists a, x. apply (find_edge_iff Hr). auto.
+    + exists b', x. apply (find_edge_iff Hr). auto.
+    + exists a, x. apply (find_edge_iff Hr). auto.
+  - intros [(a & L & ->) (v & e & A)]. apply rc_label_keys; [|exact L]. apply rc_keys.
+    apply (find_edge_iff Hr) in A. destruct A as [A|A]; apply rc_edge_sound in A; destruct A as [A Hs].
+    + exists n, v, e. repeat split; auto. eapply label_some_node; eauto.
+    + exists v, n, e. repeat split; auto. eapply label_some_node; eauto.
+Qed.
+
+(** * the centre is a well-formed graph *)
+Lemma rc_wf g : wf g -> wf (get_rc g).
+Proof.
+  intros W. apply wf_intro.
+  - apply (proj1 (rc_NInv g)).
+  - intros a b x I. apply rc_edge_sound in I. destruct I as [I Hs].
+    destruct (wf_edge_nodes W I) as (Ia & Ib & Hab). rewrite !rc_keys. split; [|split; [|exact Hab]].
+    + exists a, b, x. auto.
+    + exists a, b, x. auto.
+  - apply rc_simple, wf_simple, W.
+Qed.
+
+(** * idempotence *)
+Lemma is_h_rc g n : In n (node_ids (get_rc g)) -> is_h (get_rc g) n = is_h g n.
+Proof.
+  intros I. unfold is_h. apply node_label_some in I. destruct I as (b & L). rewrite L.
+  apply rc_label_sound in L. destruct L as (a & L & ->). rewrite L. reflexivity.
+Qed.
+
+Theorem rc_idem g : wf g -> geq (get_rc (get_rc g)) (get_rc g).
+Proof.
+  intros W. pose proof (rc_wf g W) as W'.
+  assert (forall u v, adj (get_rc (get_rc g)) u v = adj (get_rc g) u v) as Hadj.
+  { intros u v. apply option_ext. intros e. rewrite (rc_adj (get_rc g) W'). split; [tauto|].
+    intros A. split; [exact A|]. pose proof A as A0. apply (rc_adj g W) in A. destruct A as [A [C|Hh]]; [auto|right].
+    assert (In u (node_ids (get_rc g)) /\ In v (node_ids (get_rc g))) as [Iu Iv].
+    { apply (wf_adj_iff W') in A0. destruct A0 as [A0|A0]; destruct (wf_edge_nodes W' A0) as (P & Q & _); auto. }
+    unfold is_hh in *. rewrite (is_h_rc g u Iu), (is_h_rc g v Iv). exact Hh. }
+  split; [|exact Hadj].
+  intros n. apply option_ext. intros b. rewrite (rc_nodes (get_rc g) W'). split.
+  - intros [(a & L & ->) _]. pose proof L as L0. apply rc_label_sound in L. destruct L as (a0 & _ & ->). exact L0.
+  - intros L. split.
+    + exists b. split; [exact L|]. apply rc_label_sound in L. destruct L as (a0 & _ & ->). reflexivity.
+    + apply (rc_nodes g W) in L. destruct L as [_ (v & e & A)]. exists v, e. rewrite Hadj. exact A.
+Qed.
+
+(** * equivariance *)
+Section Equivariant.
+Variable f : N -> N.
+Hypothesis Hinj : forall a b, f a = f b -> a = b.
+
+Definition mapn (ns : list (N * inode)) := map (fun p : N * inode => (f (fst p), snd p)) ns.
+Definition mape (es : list (N * N * iedge)) := map (fun e : N * N * iedge => let '(a, b, x) := e in (f a, f b, x)) es.
+Definition mapst (st : rc_state) : rc_state := (mapn (fst st), mape (snd st)).
+
+Lemma ensure_equiv (g : its) n ns : ensure_node (relabel f g) (f n) (mapn ns) = mapn (ensure_node g n ns).
+Proof.
+  unfold ensure_node, has_key, mapn. rewrite (assoc_map_key Hinj), (label_relabel Hinj).
+  destruct (assoc n ns); [reflexivity|]. destruct (label g n); [|reflexivity]. rewrite map_app. reflexivity.
+Qed.
+
+Lemma is_hh_equiv (g : its) u v : is_hh (relabel f g) (f u) (f v) = is_hh g u v.
+Proof. unfold is_hh, is_h. rewrite !(label_relabel Hinj). reflexivity. Qed.
+
+Lemma step_changed_equiv (g : its) st u v x :
+  step_changed (relabel f g) (mapst st) (f u, f v, x) = mapst (step_changed g st (u, v, x)).
+Proof.
+  unfold step_changed. destruct (changed x); [|reflexivity]. unfold mapst. simpl.
+  rewrite !ensure_equiv. unfold mape. rewrite map_app. reflexivity.
+Qed.
+
+Lemma step_hh_equiv (g : its) st u v x :
+  step_hh (relabel f g) (mapst st) (f u, f v, x) = mapst (step_hh g st (u, v, x)).
+Proof.
+  unfold step_hh. rewrite is_hh_equiv. destruct (is_hh g u v); [|reflexivity]. unfold mapst. simpl.
+  rewrite !ensure_equiv. unfold mape at 1. rewrite (find_edge_relabel Hinj).
+  destruct (find_edge u v (snd st)); [reflexivity|]. unfold mape. rewrite map_app. reflexivity.
+Qed.
+
+Lemma fold_changed_equiv (g : its) L : forall st,
+  fold_left (step_changed (relabel f g)) (mape L) (mapst st) = mapst (fold_left (step_changed g) L st).
+Proof.
+  induction L as [|[[u v] x] L IH]; intros st; [reflexivity|].
+  change (mape ((u, v, x) :: L)) with ((f u, f v, x) :: mape L).
+  cbn [fold_left]. rewrite step_changed_equiv. apply IH.
+Qed.
+
+Lemma fold_hh_equiv (g : its) L : forall st,
+  fold_left (step_hh (relabel f g)) (mape L) (mapst st) = mapst (fold_left (step_hh g) L st).
+Proof.
+  induction L as [|[[u v] x] L IH]; intros st; [reflexivity|].
+  change (mape ((u, v, x) :: L)) with ((f u, f v, x) :: mape L).
+  cbn [fold_left]. rewrite step_hh_equiv. apply IH.
+Qed.
+
+Lemma rc_state_equiv (g : its) :
+  fold_left (step_hh (relabel f g)) (mape (gedges g))
+            (fold_left (step_changed (relabel f g)) (mape (gedges g)) ([], [])) =
+  mapst (fold_left (step_hh g) (gedges g) (fold_left (step_changed g) (gedges g) ([], []))).
+Proof.
+  change (@nil (N * inode), @nil (N * N * iedge)) with (mapst ([], [])) at 1.
+  rewrite fold_changed_equiv, fold_hh_equiv. reflexivity.
+Qed.
+
+Lemma rc_equivariant (g : its) : get_rc (relabel f g) = relabel f (get_rc g).
+Proof.
+  unfold get_rc. cbv zeta. change (gedges (relabel f g)) with (mape (gedges g)).
+  rewrite rc_state_equiv. reflexivity.
+Qed.
+End Equivariant.
+
+(** * the radius-k neighbourhood *)
+Lemma dist_le_mono g S k k' n : (k <= k')%nat -> dist_le g S k n -> dist_le g S k' n.
+Proof. intros Hk (s & m & I & Hm & Wk). exists s, m. repeat split; auto. lia. Qed.
+
+Lemma knn_spec g S k n : In n (knn g S k) <-> dist_le g S k n.
+Proof.
+  revert n. induction k as [|k IH]; intros n.
+  - unfold knn. simpl. rewrite add_all_in. split.
+    + intros [I|[]]. exists n, O. repeat split; auto. constructor.
+    + intros (s & m & I & Hm & Wk). left. assert (m = O) as -> by lia. inversion Wk; subst. exact I.
+  - unfold knn in *. simpl. rewrite step_in. split.
+    + intros [I|(u & Iu & In)].
+      * apply IH in I. eapply dist_le_mono; [|exact I]. lia.
+      * apply IH in Iu. destruct Iu as (s & m & I & Hm & Wk). exists s, (Datatypes.S m). repeat split; [exact I|lia|].
+        econstructor; [exact Wk|]. apply in_nbrs. exact In.
+    + intros (s & m & I & Hm & Wk). destruct (Nat.eq_dec m (Datatypes.S k)) as [->|Hne].
+      * inversion Wk; subst. right. exists u. split; [|apply in_nbrs; assumption].
+        apply IH. exists s, k. repeat split; auto.
+      * left. apply IH. exists s, m. repeat split; auto. lia.
+Qed.
+
+Lemma walk_in_nodes g s n m : wf g -> In s (node_ids g) -> walk g s n m -> In n (node_ids g).
+Proof.
+  intros W Is Wk. induction Wk as [s|s u n m Wk IH A]; [exact Is|].
+  destruct (adj g u n) as [e|] eqn:Ad; [|congruence]. apply (wf_adj_iff W) in Ad.
+  destruct Ad as [Ad|Ad]; destruct (wf_edge_nodes W Ad) as (P & Q & _); assumption.
+Qed.
+
+Lemma rc_keys_in g n : In n (node_ids (get_rc g)) -> In n (node_ids g).
+Proof. intros I. apply rc_keys in I. destruct I as (a & b & x & _ & _ & _ & I). exact I. Qed.
+
+Lemma dist_le_in_nodes g k n : wf g -> dist_le g (node_ids (get_rc g)) k n -> In n (node_ids g).
+Proof.
+  intros W (s & m & I & _ & Wk). eapply walk_in_nodes; eauto. apply rc_keys_in. exact I.
+Qed.
+
+Lemma extract_k_S g k : extract_k g (S k) = induced_sub g (knn g (node_ids (get_rc g)) (S k)).
+Proof. reflexivity. Qed.
+
+(** membership tests of lib/LGraph.v and lib/Reach.v coincide *)
+Lemma mem_in_knn g S k n : LGraph.mem n (knn g S k) = true <-> dist_le g S k n.
+Proof. rewrite LGraph.mem_spec. apply knn_spec. Qed.
+
+Theorem ctx_spec g : wf g -> forall k, (1 <= k)%nat ->
+  let B := dist_le g (node_ids (get_rc g)) k in
+  (forall n, In n (node_ids (extract_k g k)) <-> B n) /\
+  (forall n a, label (extract_k g k) n = Some a <-> label g n = Some a /\ B n) /\
+  (forall u v e, adj (extract_k g k) u v = Some e <-> adj g u v = Some e /\ B u /\ B v).
+Proof.
+  intros W k Hk B. destruct k as [|k]; [lia|]. rewrite extract_k_S. split; [|split].
+  - intros n. rewrite node_ids_induced, knn_spec. split; [tauto|]. intros H. split; [|exact H].
+    eapply dist_le_in_nodes; eauto.
+  - intros n a. rewrite label_induced.
+    destruct (LGraph.mem n (knn g (node_ids (get_rc g)) (S k))) eqn:M.
+    + apply mem_in_knn in M. tauto.
+    + split; [discriminate|]. intros [_ Bn]. apply mem_in_knn in Bn. congruence.
+  - intros u v e. rewrite (adj_induced _ _ _ W).
+    destruct (LGraph.mem u (knn g (node_ids (get_rc g)) (S k))) eqn:Mu;
+      destruct (LGraph.mem v (knn g (node_ids (get_rc g)) (S k))) eqn:Mv; simpl.
+    + apply mem_in_knn in Mu, Mv. tauto.
+    + split; [discriminate|]. intros (_ & _ & Bv). apply mem_in_knn in Bv. congruence.
+    + split; [discriminate|]. intros (_ & Bu & _). apply mem_in_knn in Bu. congruence.
+    + split; [discriminate|]. intros (_ & Bu & _). apply mem_in_knn in Bu. congruence.
+Qed.
+
+(** * the chain  centre = context(0) within context(1) within context(2) ... within ITS *)
+Lemma dist_le_seed g S k n : In n S -> dist_le g S k n.
+Proof. intros I. exists n, O. repeat split; [exact I|lia|constructor]. Qed.
+
+Theorem ctx_chain g : wf g -> forall k k', (k <= k')%nat ->
+  extract_k g 0 = get_rc g /\
+  (forall n, In n (node_ids (extract_k g k)) -> In n (node_ids (extract_k g k'))) /\
+  (forall u v e, adj (extract_k g k) u v = Some e -> adj (extract_k g k') u v = Some e) /\
+  (forall n, In n (node_ids (extract_k g k')) -> In n (node_ids g)) /\
+  (forall u v e, adj (extract_k g k') u v = Some e -> adj g u v = Some e).
+Proof.
+  intros W k k' Hk. split; [reflexivity|].
+  assert (forall j, (forall n, In n (node_ids (extract_k g j)) -> In n (node_ids g)) /\
+                    (forall u v e, adj (extract_k g j) u v = Some e -> adj g u v = Some e)) as Hsub.
+  { intros [|j].
+    - split; [apply rc_keys_in|]. intros u v e A. apply (rc_adj g W) in A. tauto.
+    - destruct (ctx_spec g W (S j) ltac:(lia)) as (N1 & _ & A1). split.
+      + intros n I. apply N1 in I. eapply dist_le_in_nodes; eauto.
+      + intros u v e A. apply A1 in A. tauto. }
+  split; [|split; [|split; apply Hsub]].
+  - intros n I. destruct k' as [|k']; [assert (k = O) as -> by lia; exact I|].
+    destruct (ctx_spec g W (S k') ltac:(lia)) as (N1 & _ & _). apply N1.
+    destruct k as [|k].
+    + apply dist_le_seed. exact I.
+    + destruct (ctx_spec g W (S k) ltac:(lia)) as (N0 & _ & _). apply N0 in I.
+      eapply dist_le_mono; [|exact I]. lia.
+  - intros u v e A. destruct k' as [|k']; [assert (k = O) as -> by lia; exact A|].
+    destruct (ctx_spec g W (S k') ltac:(lia)) as (_ & _ & A1). apply A1.
+    destruct k as [|k].
+    + simpl in A. pose proof (rc_wf g W) as W'. pose proof A as A0. apply (rc_adj g W) in A. split; [tauto|].
+      apply (wf_adj_iff W') in A0.
+      destruct A0 as [A0|A0]; destruct (wf_edge_nodes W' A0) as (P & Q & _); split; apply dist_le_seed; assumption.
+    + destruct (ctx_spec g W (S k) ltac:(lia)) as (_ & _ & A0). apply A0 in A. destruct A as (A & Bu & Bv).
+      split; [exact A|]. split; (eapply dist_le_mono; [|eassumption]); lia.
+Qed.
+
+(** * non-vacuity: the ITS of C01's 4-atom substitution extended by a spectator chain 1-5-6-7 *)
+Definition ex_n (el : N) : inode := IN el 0 0 None (NA el false 0 0 []) (NA el false 0 0 []).
+Definition ex_its : its :=
+  LG [(1%N, ex_n 70%N); (2%N, ex_n 17013%N); (3%N, ex_n 82%N); (4%N, ex_n 2%N); (5%N, ex_n 70%N);
+      (6%N, ex_n 70%N); (7%N, ex_n 70%N); (8%N, ex_n 2%N)]
+     [(1%N, 2%N, IE 2 0 2); (3%N, 4%N, IE 2 0 2); (3%N, 1%N, IE 0 2 (-2)); (4%N, 2%N, IE 0 2 (-2));
+      (1%N, 5%N, IE 2 2 0); (5%N, 6%N, IE 4 4 0); (6%N, 7%N, IE 2 2 0); (4%N, 8%N, IE 2 2 0)].
+
+Lemma ex_its_wf : wf ex_its.
+Proof.
+  apply wf_intro; simpl.
+  - repeat constructor; simpl; intuition discriminate.
+  - intros a b x I. repeat (destruct I as [E|I]; [inversion E; subst; simpl; intuition discriminate|]). destruct I.
+  - repeat constructor.
+Qed.
+
+Lemma ex_its_std : std_consistent ex_its.
+Proof. intros u v x I. simpl in I. repeat (destruct I as [E|I]; [inversion E; reflexivity|]). destruct I. Qed.
+
+(** hypotheses satisfiable; the centre is a proper, non-empty part (4 changed bonds + the unchanged H-H bond 4-8);
+    the contexts grow strictly up to radius 3 *)
+Example C02_nonvacuous :
+  wf ex_its /\ std_consistent ex_its /\
+  map fst (gnodes (get_rc ex_its)) = [1; 2; 3; 4; 8]%N /\
+  length (gedges (get_rc ex_its)) = 5%nat /\
+  adj (get_rc ex_its) 4%N 8%N = Some (IE 2 2 0) /\ adj (get_rc ex_its) 1%N 5%N = None /\
+  map (fun k => length (gnodes (extract_k ex_its k))) [0; 1; 2; 3]%nat = [5; 6; 7; 8]%nat.
+Proof.
+  split; [apply ex_its_wf|]. split; [apply ex_its_std|]. repeat split.
+Qed.
+
+Example C02_equivariant_nonvacuous :
+  get_rc (relabel (N.add 10) ex_its) = relabel (N.add 10) (get_rc ex_its) /\
+  relabel (N.add 10) (get_rc ex_its) <> get_rc ex_its.
+Proof.
+  split; [apply rc_equivariant; intros a b; apply N.add_cancel_l|]. intros E. vm_compute in E. discriminate.
+Qed.
